@@ -601,3 +601,35 @@ Proof.
   induction H as [|c cps Hc Hs IH]; [reflexivity|].
   cbn [flat_map]. rewrite u16dec_enc16 by exact Hc. f_equal. exact IH.
 Qed.
+
+(* ------------------------------------------------------------------ *)
+(* the JSR deferred content fill: outside the known class (the header's label,
+   if any, resolves to UTF-8) its result satisfies the property *)
+
+Theorem jsr_fill_holds_outside_class : forall m hdr o bytes,
+  c20_jsr_class hdr o bytes = false ->
+  C20_Holds m hdr false o bytes (obs_of (jsr_fill_model m bytes)).
+Proof.
+  intros m hdr o bytes Hc. unfold c20_jsr_class in Hc.
+  destruct (for_label (charset_label hdr false bytes) o) as [e|] eqn:He; [|discriminate].
+  destruct e; try discriminate.
+  pose proof (model_holds m None false None bytes) as H.
+  unfold jsr_fill_model. unfold C20_Holds in *.
+  rewrite (charset_remote_default None bytes None eq_refl) in H. rewrite He. exact H.
+Qed.
+
+(* in every case the original-bytes guarantee is kept on that route *)
+Theorem jsr_fill_original_bytes : forall m bytes json s,
+  jsr_fill_model m bytes = OModule json s ->
+  original_bytes s = None \/ original_bytes s = Some bytes.
+Proof.
+  intros m bytes json s H. unfold jsr_fill_model, parse_module_model in H.
+  destruct m; try discriminate;
+    (destruct (load_text None false None bytes) as [s'|] eqn:El; [|discriminate]);
+    inversion H; subst; eapply original_bytes_faithful; exact El.
+Qed.
+
+(* ModuleTextSource::new_unknown (parse_module_from_ast): the original bytes are never claimed *)
+Theorem new_unknown_no_original : forall t,
+  original_bytes (new_unknown t) = None /\ s_text (new_unknown t) = t.
+Proof. intro t. split; reflexivity. Qed.
